@@ -8,7 +8,7 @@ tag=$(basename "$(dirname "$patch")")_$$
 wt=/tmp/seedrun/wt_$tag; out=/tmp/seedrun/out_$tag
 mkdir -p /tmp/seedrun
 git -C /repo worktree add -q --detach "$wt" HEAD || exit 2
-if ! git -C "$wt" apply "$patch"; then echo "PATCH DOES NOT APPLY"; git -C /repo worktree remove --force "$wt"; exit 2; fi
+if ! git -C "$wt" apply "$patch" 2>/dev/null && ! git -C "$wt" apply -3 "$patch"; then echo "PATCH DOES NOT APPLY"; git -C /repo worktree remove --force "$wt"; exit 2; fi
 cd "$(dirname "$0")/.."
 for id in "$@"; do
   VERIF_REPO=$wt VERIF_OUT=$out ./bin/check "$id" --tier "${TIER:-quick}" > "$out.$id.log" 2>&1
